@@ -353,7 +353,7 @@ func c18GenOp(t *rapid.T) c18Op {
 }
 
 var c18Concurrent = probe.Define("C18", "concurrent", func(t *rapid.T) c18In {
-	in := c18In{Procs: rapid.SampledFrom([]int{2, 4, 8, 16}).Draw(t, "procs")}
+	in := c18In{Procs: rapid.SampledFrom([]int{1, 2, 3, 4, 8, 16, 24}).Draw(t, "procs")}
 	n := rapid.SampledFrom([]int{2, 3, 4, 6, 8, 16, 32, 64}).Draw(t, "goroutines")
 	maxOps := 8
 	if n >= 32 {
@@ -637,6 +637,7 @@ var c18DHStorm = probe.Define("C18", "dh-storm", func(t *rapid.T) c18StormIn { p
 })
 
 func TestC18(t *testing.T) {
+	probe.RotateProcs = false // every burst sets GOMAXPROCS itself
 	c := probe.NewCtx(t, "C18")
 	c18Concurrent.Eval(c, c18Cold())
 	c18ErrorPaths.Eval(c, c18ErrIn{Procs: 8, Goroutines: 8, Inputs: c18Malformed()})
